@@ -160,6 +160,8 @@ RowOf(k, p, v) ==
      sum |-> IF v.set THEN v.sum ELSE 0, sq |-> IF v.set THEN v.sq ELSE 0,
      cent |-> IF v.dig THEN v.cent ELSE EmptyBag,
      sk |-> v.sk,
+     ucnt |-> Cardinality(v.sk.items),                      \* items the marshalled state carries
+     usize |-> Cardinality(v.sk.items) * Pow2(v.sk.skip),   \* ChUnique.Size (as is; exact in exact mode)
      minH |-> IF v.set THEN v.minH ELSE 0, maxH |-> IF v.set THEN v.maxH ELSE 0, cntH |-> v.cntH]
 
 RECURSIVE SeqOfSet(_)
@@ -220,6 +222,8 @@ RowMatches(r, e) ==
     /\ r.minH \in e.minHs /\ r.maxH \in e.maxHs /\ r.cntH \in e.cntHs
     /\ r.sk = Canon(e.uniq)                                   \* C04's canonical form; implies the next line
     /\ (Cardinality(e.uniq) < UniqLimit => SkExact(r.sk) /\ r.sk.items = e.uniq)
+    /\ r.ucnt = Cardinality(r.sk.items)                       \* the state written holds every hash once
+    /\ (Cardinality(e.uniq) < UniqLimit => r.usize = Cardinality(e.uniq))   \* the count read back is exact
 
 NoDuplicateKey(bd)  == \A i, j \in DOMAIN bd : i # j => <<bd[i].key, bd[i].top>> # <<bd[j].key, bd[j].top>>
 KeysExact(bd, cs)   == {<<bd[i].key, bd[i].top>> : i \in DOMAIN bd} = KeyTops(cs)
